@@ -1097,7 +1097,7 @@ def clauses():
                     "after every step composite shape, proj_data and aux_data of the implementation vs the Lean state machine Obj.step / Obj.afterQuery executed over Q "
                     "(data chosen so that every square root the library takes is rational; segments with interior/ideal endpoints in every combination and representatives of either sign)"),
         Clause("history_oracle", "oracle", gen_hist, run_hist, judge_hist, site="projective.ProjectiveObject (set/copy/apply/reshape/flatten/__getitem__/__setitem__/stack/combine/astype) + queries",
-               budget={"quick": 180, "thorough": 30000},
+               budget={"quick": 144, "thorough": 30000},
                what="histories over {copy, apply, reshape, flatten, index, set item, stack, combine, astype} on polygons, segments, tangent vectors of shapes (), (2,), (2,3) "
                     "interleaved with read-only queries (random depth <= 8 in quick; in thorough EVERY history of depth <= 4 over {apply, reshape, flatten, index, set item, stack, combine} "
                     "with copy/astype inserted at random): "
